@@ -92,7 +92,10 @@ ObsLoopExc(o, e) == FlagIf(o, e.x = "InvalidStateError", "C02_CompleteOnce")
 (* acknowledged and a NON wait for their response indefinitely by design.    *)
 ObsEnd(o, e) ==
   FlagIf(o, \/ \E q \in Outstanding(o) :
-                  LET s == o.rq[q] IN s.mustend \/ (s.con /\ ~s.acked /\ s.tok # "")
+                  LET s == o.rq[q] IN \/ s.mustend \/ (s.con /\ ~s.acked /\ s.tok # "")
+                                      \* at true quiescence nothing is held back any more: a request that was
+                                      \* never even transmitted has been forgotten
+                                      \/ (s.tok = "" /\ e.x # "cut")
             \/ \E q \in DOMAIN o.rq : o.rq[q].st = "ans",
          "C02_AllComplete")
 
